@@ -179,8 +179,8 @@ func c03Drive(b *Bed, listener string, qs []*c03Query, wait time.Duration) {
 		return
 	}
 	switch listener {
-	case "udp":
-		c, err := dnsclient.DialUDP("", b.L["udp"])
+	case "udp", "udpmr":
+		c, err := dnsclient.DialUDP("", b.L[listener])
 		if err != nil {
 			for _, q := range qs {
 				q.Note = "dial: " + err.Error()
@@ -344,9 +344,12 @@ func c03Judge(b *Bed, q *c03Query) (sig, what string) {
 	return "", ""
 }
 
+// all listener kinds, plus the UDP listener on the wildcard address with multi_routes
+var c03Listeners = append(append([]string{}, allListeners...), "udpmr")
+
 func runC03(c *Ctx) {
 	ups := []string{"udp", "tcp", "pipe", "dot", "dotp", "doh", "dohs", "h3", "doq"}
-	b, err := NewBed(c, "bed", BedOpts{Upstreams: ups, UdpRcvBuf: 4 << 20})
+	b, err := NewBed(c, "bed", BedOpts{Upstreams: ups, UdpRcvBuf: 4 << 20, Listeners: c03Listeners})
 	if err != nil {
 		if b != nil && b.Proxy != nil {
 			res := b.Stop()
@@ -363,7 +366,7 @@ func runC03(c *Ctx) {
 		for phase := 0; phase < 2; phase++ {
 			var wg sync.WaitGroup
 			var phaseQs []*c03Query
-			for li, listener := range allListeners {
+			for li, listener := range c03Listeners {
 				r := gen.New(c.Seed, "c03/"+listener, rep*2+phase)
 				var qs []*c03Query
 				seq := 0
@@ -489,7 +492,7 @@ func runC03(c *Ctx) {
 		}
 	}
 	// liveness probe after everything
-	for _, l := range allListeners {
+	for _, l := range c03Listeners {
 		if !b.Proxy.Alive() {
 			break
 		}
